@@ -127,6 +127,21 @@ def access_checks(system, ids, listed):
             raise
         except Exception:
             ok = False
+    # a molecule the caller got by index and worked on (moved, atoms renumbered) is the caller's: asking for the same
+    # instance again gives the molecule of the file
+    for i in ([0, -1, n // 2] if n else []):
+        try:
+            m = system[i]
+            before = m.atoms_positions.copy()
+            m.move(np.array([3.0, -2.0, 1.0]))
+            m.atoms_ids = [9000 + k for k in range(len(m))]
+            again = system[i]
+            ok = ok and again is not m and [a.atomid for a in again] == ids[i] and bool(np.array_equal(again.atoms_positions, before))
+            ok = ok and [a.atomid for a in system[i:i + 1][0]] == ids[i] if i >= 0 else ok
+        except common.CaseTimeout:
+            raise
+        except Exception:
+            ok = False
     r['index'] = ok
     ok = True
     for sl in (slice(None), slice(1, None), slice(None, -1), slice(None, None, 2), slice(1, n, 3), slice(None, None, -1),
